@@ -48,6 +48,8 @@ def run(rep, tier):
         lookup(rep, c, sfx)
         opentry(rep, c, sfx)
         duplicates(rep, c, sfx)
+        chain(rep, c, sfx)
+        lbp_source(rep, c, sfx)
 
 
 # ------------------------------------------------------------------ symbolic binding power
@@ -516,3 +518,88 @@ def opentry(rep, c, sfx):
                         "the operator is registered under `%s` with the affix `%s` taken from a different Op value: in a "
                         "chain `a | b` every operator gets the first one's affix/associativity"
                         % (hirq.expr_text(keyx), hirq.expr_text(aff) if aff is not None else "?"))
+
+
+# ------------------------------------------------------------------ CHAIN / LBP
+
+def chain(rep, c, sfx):
+    r = rep.rule("C13.CHAIN" + sfx, 2,
+                 "`a | b | c | ..` keeps every operator of a level: the `next` link of an operator is assigned only where "
+                 "that very operator's `next` is known to be empty (the else side of `if let Some(child) = op.next`), so a "
+                 "chain is extended at its end and never overwritten in the middle")
+    n = 0
+    for b in c.bodies:
+        if b.get("body") is None or b.get("exp") or not b["path"].startswith(("pest::prec_climber::", "pest::pratt_parser::", "<pest::prec_climber::", "<pest::pratt_parser::")):
+            continue
+        ctx = hirq.Ctx(b)
+        for x in walk(b["body"]):
+            if kind(x) != "Assign":
+                continue
+            tgt = peel(x["l"])
+            if not (kind(tgt) == "Field" and tgt["name"] == "next" and any(s in tgt.get("bty", "") for s in ("Operator", "pratt_parser::Op"))):
+                continue
+            if kind(peel(x["r"])) == "Path" and str(peel(x["r"]).get("path", "")).endswith("Option::None"):
+                continue
+            n += 1
+            key = b["path"].split("::")[-2] + "::" + b["name"] if "::" in b["path"] else b["name"]
+            r.instance(key, where(x))
+            owner = hirq.place(tgt["base"]) or hirq.place(tgt)
+            ok = False
+            for g in ctx.guards(x):
+                cnd = peel(g[1]) if g[0] in ("if",) else None
+                if cnd is not None and kind(cnd) == "LetExpr" and g[2] is False:
+                    tested = peel(cnd["init"])
+                    if kind(tested) == "Field" and tested["name"] == "next":
+                        pt = hirq.place(tested["base"])
+                        po = hirq.place(tgt["base"])
+                        if pt is not None and po is not None and pt[1] == po[1] and pt[2] == po[2]:
+                            ok = True
+                if g[0] == "arm":
+                    scr = peel(g[1]["scrut"])
+                    vs = hirq.pat_variants(g[1]["arms"][g[2]]["pat"])
+                    if kind(scr) == "Field" and scr["name"] == "next" and any(v.endswith("Option::None") for v in vs):
+                        pt, po = hirq.place(scr["base"]), hirq.place(tgt["base"])
+                        if pt is not None and po is not None and pt[1] == po[1] and pt[2] == po[2]:
+                            ok = True
+                if g[0] == "if" and g[2] is True and kind(peel(g[1])) == "MethodCall" and peel(g[1])["m"] == "is_none":
+                    rc = peel(peel(g[1])["recv"])
+                    if kind(rc) == "Field" and rc["name"] == "next":
+                        pt, po = hirq.place(rc["base"]), hirq.place(tgt["base"])
+                        if pt is not None and po is not None and pt[1] == po[1] and pt[2] == po[2]:
+                            ok = True
+            if not ok:
+                r.violation(key, where(x), "`%s` is assigned where that operator's link has not been found empty: an "
+                            "operator already chained there is dropped (a level written `a | b | c | d` keeps a, b and d)"
+                            % hirq.expr_text(tgt))
+    if n == 0:
+        r.lost("assignments to the `next` link of Operator / Op")
+
+
+def lbp_source(rep, c, sfx):
+    r = rep.rule("C13.LBP" + sfx, 1,
+                 "the left binding power the Pratt loop compares with is the level the table stores for the next operator, "
+                 "whatever its affix (or 0 at the end of input): no arm of that function answers with a constant of its own")
+    fns = [b for b in c.bodies if b.get("body") is not None and not b.get("exp")
+           and b["path"].startswith("pest::pratt_parser::") and b.get("output") in ("u32", "usize")
+           and any(kind(x) == "MethodCall" and x["m"] == "peek" for x in walk(b["body"]))
+           and any(kind(x) == "MethodCall" and x["m"] == "get" for x in walk(b["body"]))]
+    if not fns:
+        r.lost("the function computing the next operator's left binding power")
+        return
+    for fn in fns:
+        key = fn["name"]
+        r.instance(key, where(fn["body"]))
+        leaves = hirq.tail_leaves(fn["body"]) + [x["e"] for x in walk(fn["body"]) if kind(x) == "Ret" and x.get("e") is not None]
+        for v in leaves:
+            v0 = peel(v)
+            if v0.get("ty") == "!" or (kind(v0) in ("Call", "MethodCall") and str(callee(v0)) in hirq.PANIC_CALLEES):
+                continue
+            if kind(v0) == "Lit" and hirq.lit_value(v0) == 0:
+                continue
+            if kind(v0) == "Path" and v0.get("res") == "local":
+                src = hirq.binding_source(fn, v0["id"])
+                if src is not None and any(kind(y) == "MethodCall" and y["m"] == "get" for y in walk(src)):
+                    continue
+            r.violation(key, where(v), "%s answers `%s` for some operator instead of the level stored in the table: e.g. a "
+                        "postfix operator declared below a prefix one then binds only the last operand (`!a?` groups as "
+                        "!(a?))" % (key, hirq.expr_text(v0)[:40]))
